@@ -21,3 +21,28 @@ package fasthttp
 //@   class w kept: the body-writer adapter holds only a back pointer to the response itself
 //@   class secureErrorLogMessage kept: server configuration copied into the response, not response state
 //@   class keepBodyBuffer kept: buffer-ownership mode chosen by the owner of the response
+
+//@ func RequestHeader.Reset
+//@   property C11
+//@   mode skeleton
+//@   fields RequestHeader
+//@   class bufK kept: scratch buffer, overwritten before every use
+//@   class bufV kept: scratch buffer, overwritten before every use
+//@   class secureErrorLogMessage kept: server configuration copied into the header, not message state
+
+//@ func ResponseHeader.Reset
+//@   property C11
+//@   mode skeleton
+//@   fields ResponseHeader
+//@   class bufK kept: scratch buffer, overwritten before every use
+//@   class bufV kept: scratch buffer, overwritten before every use
+//@   class secureErrorLogMessage kept: server configuration copied into the header, not message state
+
+//@ func RequestCtx.reset
+//@   property C11
+//@   mode skeleton
+//@   fields RequestCtx
+//@   class s kept: the ctx pool is per server, the same value is assigned again (see the comment in reset)
+//@   class logger kept: per-server logger wrapper, holds no request data
+//@   class formValueFunc kept: server configuration, re-assigned by acquireCtx
+//@   class timeoutCh kept: one-slot semaphore of the ctx itself (TimeoutError), not request data
